@@ -2,6 +2,7 @@ package impl
 
 import (
 	"context"
+	"time"
 
 	"github.com/libp2p/go-libp2p/core/peer"
 
@@ -35,6 +36,12 @@ func VerifC18_ConcurrentNext() {
 // VerifC18_SuccessiveManagers: with a non-decreasing clock, a manager created after an earlier one
 // issued n IDs (and at least n nanoseconds later) starts above all of them.
 func VerifC18_SuccessiveManagers() {
+	// the counter is seeded with the wall clock in NANOSECONDS (the resolution that makes
+	// "fewer IDs issued than clock ticks elapsed" a safe assumption)
+	before := time.Now()
+	c0 := newTimeCounter()
+	after := time.Now()
+	zz.Assert(uint64(before.UnixNano()) <= c0.counter && c0.counter <= uint64(after.UnixNano()), "a manager's first ID is seeded from the wall clock in nanoseconds")
 	c1 := newTimeCounter()
 	first := c1.next()
 	second := c1.next()
